@@ -62,6 +62,7 @@ func init() {
 			{ID: "R02q", Floor: 3, Doc: "who may issue a single Read: only the functions that do so in the pinned tree (the reader adapters forwarding one Read, the loops over Read); everything else fills its buffers with io.ReadFull / io.Copy / binary.Read — a short read without error is legal for any io.Reader", Run: ruleR02q},
 			{ID: "R02r", Floor: 1, Doc: "the clean end of an archive is the bare io.EOF of a length-prefix read: no errors.Is(err, io.EOF) in the library (the CID decoders wrap io.EOF for a CID cut short, and a wrapped EOF is a truncation)", Run: ruleR02r},
 			{ID: "R02s", Floor: 1, Doc: "the CID a full inspection rebuilds from the hashed bytes has the version of the section's CID (NewCidV0 for a CIDv0 section, NewCidV1 for a CIDv1 one, or Prefix.Sum)", Run: ruleR02s},
+			{ID: "R02t", Floor: 2, Doc: "the stream adapter's forward skip reports a stream that ends early: io.CopyN over the counted reader (= R03d)", Run: ruleR03d},
 		},
 	})
 }
